@@ -125,6 +125,8 @@ def run_one(tape: Any, cfg: Dict[str, Any], forbid: FrozenSet[str] = frozenset()
                 off = state['ack_end']
             got = len(rx) - off
             c = state['checked']
+            if mode != 'http' and 0 < len(cl.tx) - state.get('req_len', 0) < total_a and got < total_b:
+                w.stats['probe:both_directions_inflight'] = 1
             if got <= c:
                 return
             otx = origin_tx()
